@@ -557,8 +557,11 @@ const KWARGS: [&str; 18] = [
     "precision", "method", "fill_with", "start", "sep", "maxsplit", "chars", "count",
 ];
 
-const FORMATS: [&str; 22] = [
+const FORMATS: [&str; 36] = [
     "%d", "%5d", "%-5d", "%05.2f", "%s", "%r", "%x", "%c", "%%", "%1000000000000d", "%.1000000000000f", "%*d",
+    // width and precision taken from the arguments, and precisions at the limit of what std::fmt accepts
+    "%.*f", "%.*e", "%.*g", "%*.*f", "%0*d", "%-*s", "%.*s", "%.*d",
+    "%.65535f", "%.65535e", "%.65535g", "%.65533g", "%.65534E", "%65535.65535f",
     "%(a)s", "%",
     // multi-byte characters in every syntactic position of a format spec
     "%(\u{e9})s", "%(\u{e9}", "%\u{e9}", "%5\u{e9}", "%.\u{e9}f", "\u{1F600}%(\u{1F600}k)d\u{e9}", "%(a)\u{e9}", "%-\u{df}d",
@@ -730,6 +733,9 @@ fn grid_sources(tier: Tier) -> Vec<String> {
             out.push(format!("{{{{ {subj}[::{a}] }}}}"));
         }
         for fmt in FORMATS {
+            for fl in ["0.0001", "1.5", "1e300", "-0.0", "123456789.125"] {
+                out.push(format!("{{{{ '{fmt}'|format({fl}) }}}}{{{{ '{fmt}'|format({a}, {fl}) }}}}{{{{ '{fmt}'|format({a}, {a}, {fl}) }}}}"));
+            }
             out.push(format!("{{{{ '{fmt}'|format(**{{'\u{e9}': {a}, 'a': 1, '\u{1F600}k': 2}}) }}}}"));
             out.push(format!("{{{{ '{fmt}'|format({a}) }}}}"));
             out.push(format!("{{{{ '{fmt}'|format({a}, {a}) }}}}"));
@@ -864,6 +870,33 @@ fn accumulator_cases(tier: Tier) -> Vec<RenderCase> {
                     debug: false,
                     stack_kib: if i % 2 == 0 { 2048 } else { 8192 },
                     fuel: Some(20_000_000),
+                    as_expression: false,
+                });
+                i += 1;
+            }
+        }
+    }
+    // doubling: the value is combined with itself, so 40-70 steps describe astronomically many
+    // items while every step is cheap (lazy concatenation, lazy repetition); nothing may try to
+    // allocate room for all of them at once
+    for (init, step) in [
+        ("[1]", "ns.a + ns.a"),
+        ("[1, 2]", "ns.a + ns.a + [i]"),
+        ("[1]", "ns.a|chain(ns.a)"),
+        ("[1]", "[ns.a, ns.a]|sum(start=[])"),
+        ("[[1]]", "ns.a + ns.a|map('first')|list if i < 3 else ns.a + ns.a"),
+    ] {
+        for n in [34u32, 48, 70] {
+            for use_ in ["{{ ns.a|length }}", "{{ ns.a|first }}", "{{ (ns.a + [0])|length }}", ""] {
+                out.push(RenderCase {
+                    main_name: "main.txt".into(),
+                    source: format!("{{% set ns = namespace(a={init}) %}}{{% for i in range({n}) %}}{{% set ns.a = {step} %}}{{% endfor %}}{use_}"),
+                    companions: vec![],
+                    ctx: None,
+                    undefined: 0,
+                    debug: false,
+                    stack_kib: if i % 2 == 0 { 2048 } else { 8192 },
+                    fuel: Some(2_000_000),
                     as_expression: false,
                 });
                 i += 1;
